@@ -739,6 +739,7 @@ def generate(ctx):
 	fids = GOOD_SMALL[:6]
 	fids[1], fids[4] = 'nohdr', 'missing'
 	yield 'pool', dict(files=fids, conc=None, workers=None)
+	yield 'pool', dict(files=['s1', 's2', 's1', 's3', 's1'], conc=None, workers=None)
 	ctx.count('stream:sequential', 14)
 	wmax = 8
 	for conc in ('threads', 'processes'):
@@ -768,6 +769,11 @@ def generate(ctx):
 				if conc == 'threads' or w == 2 or not ctx.quick:
 					yield 'pool', dict(files=fids, conc=conc, workers=w)
 					ctx.count('stream:real-pool-bad-file')
+		# the same file listed more than once: still one signature per list entry, in order
+		for fids in (['s1', 's2', 's1', 's3'], ['s4', 's1', 's2', 's4', 's3', 's1', 's4'], ['s5', 's5'], ['b0', 's6', 'b0', 's6', 's6']):
+			for w, sup in ((2, False), (None, False), (3, True)):
+				yield 'pool', dict(files=list(fids), conc=conc, workers=w, supplied=sup)
+				ctx.count('stream:real-pool-repeated-file')
 		# two bad files, empty list, single file
 		yield 'pool', dict(files=['b1', 'binary', 's1', 'dir', 's2'], conc=conc, workers=3)
 		yield 'pool', dict(files=[], conc=conc, workers=2)
